@@ -139,8 +139,8 @@ func javaArgs(dir string, xmx string, workers int, rest ...string) []string {
 	args = append(args,
 		"-Xss768m", "-Xmx"+xmx,
 		"-Dfile.encoding=UTF-8", "-Dstdout.encoding=UTF-8",
-		"-Djava.io.tmpdir=" + filepath.Join(dir, "jtmp"),
-		"-cp", Jar + ":" + JarDeps, "tlc2.TLC",
+		"-Djava.io.tmpdir="+filepath.Join(dir, "jtmp"),
+		"-cp", Jar+":"+JarDeps, "tlc2.TLC",
 		"-workers", strconv.Itoa(workers), "-metadir", filepath.Join(dir, "md"))
 	return append(args, rest...)
 }
@@ -201,10 +201,10 @@ func ValidateTrace(dir, family string, lines [][]byte, extraHeader map[string]an
 		return res, fmt.Errorf("TLC produced no result.json in %s (exit: %v): %s", dir, err, tail(out, 40))
 	}
 	var r struct {
-		L     int   `json:"l"`
-		Nchk  int   `json:"nchk"`
-		Undef int   `json:"undef"`
-		Bad   []Bad `json:"bad"`
+		L     int    `json:"l"`
+		Nchk  int    `json:"nchk"`
+		Undef int    `json:"undef"`
+		Bad   []Bad  `json:"bad"`
 		Needs []Need `json:"needs"`
 	}
 	if jerr := json.Unmarshal(rb, &r); jerr != nil {
@@ -250,13 +250,13 @@ type ShardedNeed struct {
 }
 
 type ShardedResult struct {
-	Needs            []ShardedNeed
-	Stats            // summed
-	Events, Checked  int
-	Undef            int
-	Bad              []ShardedBad
-	Cmds             []string
-	Shards           int
+	Needs           []ShardedNeed
+	Stats           // summed
+	Events, Checked int
+	Undef           int
+	Bad             []ShardedBad
+	Cmds            []string
+	Shards          int
 }
 
 func ValidateSharded(baseDir, family string, sessions []Session, extraHeader map[string]any, shards int, timeout time.Duration) (*ShardedResult, error) {
